@@ -2,7 +2,8 @@
 (***************************************************************************)
 (* Implementation-level specification of one serving worker                 *)
 (* (src/server.rs process_events / collect_requests, src/responder.rs):     *)
-(* an edge-triggered poll loop                                              *)
+(* a poll loop (level-triggered since the bounded-drain fix; the           *)
+(* edge-triggered original is kept as a constant)                           *)
 (*     Poll ; for each event: loop { Reset ; Collect <= B datagrams ;        *)
 (*            SendIetf ; SendClassic ; break if the socket was found empty } *)
 (* with datagrams arriving at any moment. One action per code section.      *)
@@ -15,6 +16,10 @@ EXTENDS Naturals, Sequences, FiniteSets, TLC
 CONSTANTS B,            \* batch_size
           MaxArr,       \* bound on datagrams
           Srcs,         \* source sockets
+          LevelTriggered,         \* TRUE = as coded: the UDP socket is registered level-triggered (poll reports it while
+                                  \* datagrams are queued); FALSE = edge-triggered (reported once per arrival burst)
+          MaxBatches,             \* batches handled per wake-up (MAX_BATCHES_PER_WAKEUP); with an edge-triggered socket
+                                  \* only an unbounded drain is safe
           DrainExitsOnEmptyBatch  \* FALSE = as coded. TRUE = a (wrong) variant that leaves the drain loop when a
                                   \* batch contained no valid request; kept to show the spec detects stranding
 
@@ -27,17 +32,18 @@ VARIABLES sockq,        \* kernel receive queue: sequence of [id, k, src]
           empty,        \* collect_requests saw WouldBlock
           out,          \* responses sent
           arrived,      \* ids handed out
+          nb,           \* batches handled in the current wake-up
           nrecv, nempty,\* hook ordinals within this run: recv events, recv_empty events
           hist          \* arrival schedule as the harness can reproduce it
 
-vars == <<sockq, edge, pc, polled, i, reqI, reqC, empty, out, arrived, nrecv, nempty, hist>>
-view == <<sockq, edge, pc, polled, i, reqI, reqC, empty, out, arrived>>
+vars == <<sockq, edge, pc, polled, i, reqI, reqC, empty, out, arrived, nb, nrecv, nempty, hist>>
+view == <<sockq, edge, pc, polled, i, reqI, reqC, empty, out, arrived, nb>>
 
 Kinds == {"C", "I", "X"}
 
 Init == /\ sockq = <<>> /\ edge = FALSE /\ pc = "poll" /\ polled = FALSE /\ i = 0
         /\ reqI = <<>> /\ reqC = <<>> /\ empty = FALSE /\ out = {} /\ arrived = 0
-        /\ nrecv = 0 /\ nempty = 0 /\ hist = [pre |-> <<>>, inj |-> <<>>]
+        /\ nb = 0 /\ nrecv = 0 /\ nempty = 0 /\ hist = [pre |-> <<>>, inj |-> <<>>]
 
 \* where, in terms of the hooks, an arrival happens
 ArrivalPoint == IF nrecv = 0 /\ pc = "poll" /\ nempty = 0 THEN "pre"
@@ -51,15 +57,16 @@ Arrive(k, s) ==
     /\ edge' = TRUE
     /\ hist' = IF ArrivalPoint = "pre" THEN [hist EXCEPT !.pre = Append(@, k)]
                ELSE [hist EXCEPT !.inj = Append(@, <<ArrivalPoint, IF ArrivalPoint = "recv" THEN nrecv ELSE nempty, k>>)]
-    /\ UNCHANGED <<pc, polled, i, reqI, reqC, empty, out, nrecv, nempty>>
+    /\ UNCHANGED <<pc, polled, i, reqI, reqC, empty, out, nb, nrecv, nempty>>
 
-Poll == /\ pc = "poll" /\ edge               \* (a poll with nothing ready just times out and polls again)
-        /\ edge' = FALSE /\ polled' = TRUE /\ pc' = "reset"
+Ready == IF LevelTriggered THEN sockq # <<>> ELSE edge
+Poll == /\ pc = "poll" /\ Ready              \* (a poll with nothing ready just times out and polls again)
+        /\ edge' = FALSE /\ polled' = TRUE /\ pc' = "reset" /\ nb' = 0
         /\ UNCHANGED <<sockq, i, reqI, reqC, empty, out, arrived, nrecv, nempty, hist>>
 
 Reset == /\ pc = "reset"
          /\ reqI' = <<>> /\ reqC' = <<>> /\ i' = 0 /\ empty' = FALSE /\ pc' = "collect"
-         /\ UNCHANGED <<sockq, edge, polled, out, arrived, nrecv, nempty, hist>>
+         /\ UNCHANGED <<sockq, edge, polled, out, arrived, nb, nrecv, nempty, hist>>
 
 Collect ==
     /\ pc = "collect"
@@ -71,17 +78,18 @@ Collect ==
             /\ reqI' = IF d.k = "I" THEN Append(reqI, d) ELSE reqI
             /\ reqC' = IF d.k = "C" THEN Append(reqC, d) ELSE reqC
             /\ UNCHANGED <<pc, empty, nempty>>
-    /\ UNCHANGED <<edge, polled, out, arrived, hist>>
+    /\ UNCHANGED <<edge, polled, out, arrived, nb, hist>>
 
 Resp(v, rs) == {[req |-> rs[j].id, dst |-> rs[j].src, v |-> v, idx |-> j - 1, n |-> Len(rs),
                  batch |-> [m \in 1..Len(rs) |-> rs[m].id]] : j \in 1..Len(rs)}
 
 SendI == /\ pc = "sendI" /\ out' = out \cup Resp("I", reqI) /\ pc' = "sendC"
-         /\ UNCHANGED <<sockq, edge, polled, i, reqI, reqC, empty, arrived, nrecv, nempty, hist>>
+         /\ UNCHANGED <<sockq, edge, polled, i, reqI, reqC, empty, arrived, nb, nrecv, nempty, hist>>
 
 SendC == /\ pc = "sendC" /\ out' = out \cup Resp("C", reqC)
-         /\ LET leave == empty \/ (DrainExitsOnEmptyBatch /\ reqI = <<>> /\ reqC = <<>>) IN
+         /\ LET leave == empty \/ nb + 1 >= MaxBatches \/ (DrainExitsOnEmptyBatch /\ reqI = <<>> /\ reqC = <<>>) IN
             IF leave THEN pc' = "poll" /\ polled' = FALSE ELSE pc' = "reset" /\ UNCHANGED polled
+         /\ nb' = nb + 1
          /\ UNCHANGED <<sockq, edge, i, reqI, reqC, empty, arrived, nrecv, nempty, hist>>
 
 Worker == Poll \/ Reset \/ Collect \/ SendI \/ SendC
@@ -96,11 +104,11 @@ OwnSlot == \A r \in out : r.idx < r.n /\ r.batch[r.idx + 1] = r.req
 \* every response belongs to a valid request of the same protocol and goes to its source
 Faithful == \A r \in out : r.req <= arrived
 \* nothing is stranded: when the worker is back in poll with no readiness pending, the queue is empty
-NoStranded == (pc = "poll" /\ ~edge) => sockq = <<>>
+NoStranded == (pc = "poll" /\ sockq # <<>>) => Ready
 \* batch size respected: a signed batch never holds more than B requests
 BatchBound == Len(reqI) + Len(reqC) <= B /\ i <= B
 \* at quiescence every valid request received has its response
-Quiescent == pc = "poll" /\ ~edge /\ sockq = <<>>
+Quiescent == pc = "poll" /\ sockq = <<>> /\ (LevelTriggered \/ ~edge)
 ValidIds == {r.req : r \in out}
 \* liveness: the worker always gets back to poll, and every arrived datagram is eventually consumed
 Responsive == []<>(pc = "poll") /\ \A n \in 1..MaxArr : [](arrived >= n => <>(nrecv >= n))
